@@ -8,7 +8,7 @@ import tempfile
 
 from anchors import INT_ANCHORS, FLOAT_ANCHORS, UNSET
 
-PATTERNS = {'p1': '[a-cé\U0001F642]+', 'p2': '[0-9]*'}
+PATTERNS = {'p1': '[a-cé\U0001F642 ]+', 'p2': '[0-9]*'}
 TS_FORMATS = {'f1': '%Y-%m-%dT%H:%M:%SZ', 'f2': '%Y-%m-%d'}
 
 
@@ -96,6 +96,8 @@ def concrete_str(v):
         return (('se%dcret%d' % (v['u'], v['u'])) + 'x' * n)[:n]
     ch = 'é' if v['u'] == 1 else 'a'
     s = ch * n
+    if n >= 3:
+        s = s[0] + ' ' + s[2:]          # texts of three or more characters contain a space
     if not v['ok']:
         s = s[:-1] + 'Z'
     return s
